@@ -43,6 +43,16 @@ SEEDS = {
  "C19-m2": ("REINFORCE.load_from_checkpoint strips every 'baseline.' prefix and loads the baseline non-strictly", "nested (warm-up + rollout) baseline whose policy differs from the acting policy at checkpoint time"),
  "C20-m1": ("RewardScaler.update counts rows before flattening the batch", "a 2-D observed tensor (multi-start advantages) with reward_scale norm/scale"),
  "C20-m2": ("ExponentialBaseline.eval re-initialises when the stored value is falsy", "running value exactly 0 when eval is entered and beta > 0"),
+ "C06-m3": ("SVRPEnv.check_solution_validity does not reset the segment start when moving to the next batch row", "batch >= 2 and an unmet-skill fault in the first route of a row with index >= 1"),
+ "C06-m4": ("OPEnv.check_solution_validity compares every tour with the largest length budget of the batch (.max() without dim)", "batch whose instances have different max_length and an over-length tour in a tight row"),
+ "C07-m3": ("FFSPEnv._move_to_next_machine looks the next machine up in the stage-local table", "flatten_stages=False and more than one stage"),
+ "C07-m4": ("jssp/parser.read builds the pad mask from num_jobs * max_ops_per_job", "several JSSP files of different size, a padded one with unequal operations per job"),
+ "C08-m3": ("MCPEnv._step trims the chosen memberships to the longest non-zero count before scanning them", "chosen set with an interior zero and no batch-mate with a longer set in the same step"),
+ "C08-m4": ("DPPEnv._step scatters into the action mask in place (the reset does not clone it)", "second episode on instances whose mask storage is shared (views / slices of a dataset)"),
+ "C10-m3": ("modify_logits_for_top_k_filtering uses one scalar threshold for the whole batch", "top_k > 0 and batch >= 2 with different k-th largest logits"),
+ "C10-m4": ("select_start_nodes wraps start number num_loc+1 to the depot", "depot environment with num_starts / beam_width > num_loc"),
+ "C11-m3": ("_multistart_batched_index (heatmap decoder) uses repeat_interleave", "non-autoregressive policy, num_starts > 1, batch > 1"),
+ "C11-m4": ("get_log_likelihood skips the td['mask'] step flags on the full-distribution path", "user-supplied td['mask'] and log-likelihood requested with return_entropy / store_all_logp"),
 }
 for sid in sorted(os.listdir(os.path.join(ROOT, "seeded"))):
     d = os.path.join(ROOT, "seeded", sid)
